@@ -57,6 +57,10 @@ def pick(rng):
         return {"name": "timetree", "kind": "timetree"}
     if u < 0.71:
         return {"name": "sitemodels", "kind": "sitemodels"}
+    if u < 0.745:
+        return {"name": "flows", "kind": "flows"}
+    if u < 0.78:
+        return {"name": "empirical", "kind": "empirical"}
     i = rng.randint(0, len(CLI_VECTORS) - 1)
     sub = rng.choice(["mcmc", "mcmc", "advi"])
     return {"name": "cli:%s:%s" % (sub, " ".join(CLI_VECTORS[i])), "kind": "cli", "sub": sub, "args": CLI_VECTORS[i]}
@@ -94,6 +98,10 @@ def _build(recipe):
         return _timetree()
     if kind == "sitemodels":
         return _sitemodels()
+    if kind == "flows":
+        return _flows()
+    if kind == "empirical":
+        return _empirical()
     raise ValueError(kind)
 
 
@@ -220,7 +228,19 @@ def _variational():
         D("qx", "torch.distributions.Normal", "x", {"loc": P("qx.loc", [0.1, 0.2]), "scale": T("qx.scale", "torch.distributions.ExpTransform", P("qx.scale.unres", [-1.0, -0.5]))}),
         D("qz", "torch.distributions.Normal", "z", {"loc": P("qz.loc", [0.0, 0.2]), "scale": T("qz.scale", "torch.distributions.ExpTransform", P("qz.scale.unres", [-1.5, -1.0]))}),
     ]))
+    # a second mean-field family over the same latent parameters (component of the stratified ELBO)
+    spec.append(scenes.joint("variational.b", [
+        D("qx.b", "torch.distributions.Normal", "x", {"loc": P("qx.b.loc", [0.4, 0.1]), "scale": T("qx.b.scale", "torch.distributions.ExpTransform", P("qx.b.scale.unres", [-0.7, -0.9]))}),
+        D("qz.b", "torch.distributions.Normal", "z", {"loc": P("qz.b.loc", [0.3, -0.1]), "scale": T("qz.b.scale", "torch.distributions.ExpTransform", P("qz.b.scale.unres", [-1.2, -1.4]))}),
+    ]))
+    spec.append({"id": "detnormal", "type": "DeterministicNormal", "loc": P("dn.loc", [0.2, -0.3]), "scale": T("dn.scale", "torch.distributions.ExpTransform", P("dn.scale.unres", [-0.5, 0.1])),
+                 "x": P("dn.x", [0.1, 0.4]), "shape": [3]})
     common = {"joint": "joint", "variational": "variational"}
+    spec += [
+        dict({"id": "klpq.is", "type": "KLpqImportance", "samples": 4}, **common),
+        {"id": "selbo", "type": "SELBO", "samples": 3, "joint": "joint", "components": ["variational", "variational.b"], "weights": P("selbo.weights", [0.4, 0.6])},
+        {"id": "selbo.multi", "type": "SELBO", "samples": [3, 2], "joint": "joint", "components": ["variational", "variational.b"], "weights": "selbo.weights"},
+    ]
     spec += [
         dict({"id": "elbo", "type": "ELBO", "samples": 3}, **common),
         dict({"id": "elbo.multi", "type": "ELBO", "samples": [3, 2]}, **common),
@@ -230,7 +250,8 @@ def _variational():
         dict({"id": "vr", "type": "VR", "samples": 4, "alpha": 0.5}, **common),
         dict({"id": "cubo", "type": "CUBO", "samples": 4, "n": 2.0}, **common),
     ]
-    dom = {"qx.loc": "real", "qx.scale.unres": "real", "qz.loc": "real", "qz.scale.unres": "real"}
+    dom = {"qx.loc": "real", "qx.scale.unres": "real", "qz.loc": "real", "qz.scale.unres": "real", "qx.b.loc": "real", "qz.b.scale.unres": "real",
+           "selbo.weights": "simplex", "dn.loc": "real", "dn.scale.unres": "real", "dn.x": "real"}
     return spec, dom
 
 
@@ -295,4 +316,70 @@ def _sitemodels():
         {"id": "sm.w0", "type": "WeibullSiteModel", "categories": 2, "shape": P("w0.shape", [0.4])},
     ]
     dom = {"c.mu": "positive", "i.p": "unit", "i.mu": "positive", "w.shape": "positive", "w.mu": "positive", "wi.shape": "positive", "wi.p": "unit", "wi.mu": "positive", "w0.shape": "positive"}
+    return spec, dom
+
+
+def _flows():
+    """A normalizing flow of planar layers (torch modules wrapped by torchtree.nn.Module, their
+    weights are torchtree Parameters holding torch.nn.Parameter tensors) as the variational
+    family of an ELBO over an energy-function target."""
+    def planar(i):
+        return {"id": "planar.%d" % i, "type": "torchtree.nn.Module", "module": "torchtree.nf.planar.PlanarTransform",
+                "parameters": {"u": scenes.param("flow.u.%d" % i, [[0.1 * (i + 1), -0.05]], nn=True),
+                               "w": scenes.param("flow.w.%d" % i, [[0.07, 0.02 * (i + 1)]], nn=True),
+                               "b": scenes.param("flow.b.%d" % i, [0.03 * i], nn=True)}}
+
+    spec = [
+        {"id": "energy", "type": "torchtree.nf.energy_functions.EnergyFunctionModel", "x": {"id": "z", "type": "Parameter", "zeros": [6, 2]}, "function": "u_z1"},
+        {"id": "elbo", "type": "ELBO", "samples": [6], "joint": "energy",
+         "variational": {"id": "varmodel", "type": "torchtree.nf.flow.NormalizingFlow", "x": "z", "layers": [planar(0), planar(1), planar(2)],
+                         "base": {"id": "base", "type": "torchtree.distributions.MultivariateNormal",
+                                  "parameters": {"loc": scenes.param("base.loc", [0.0, 0.0]), "covariance_matrix": scenes.param("base.scale", [[1.0, 0.0], [0.0, 1.0]])},
+                                  "x": scenes.param("flow.z", [0.0, 0.0])}}},
+    ]
+    dom = {"base.loc": "real"}
+    for i in range(3):
+        dom.update({"flow.u.%d" % i: "real", "flow.w.%d" % i: "real", "flow.b.%d" % i: "real"})
+    return spec, dom
+
+
+def _empirical():
+    """Parameter-free substitution models (LG, WAG, GeneralJC69) under tree likelihoods whose other
+    inputs move: amino-acid data on an unrooted tree, a discrete trait read from taxon attributes
+    (AttributePattern) on a time tree given by node heights (FlexibleTimeTreeModel)."""
+    from torchtree.evolution.tree_model_flexible import FlexibleTimeTreeModel
+
+    P = scenes.param
+    names = ["A", "B", "C", "D"]
+    seqs = ["ARNDCQEGHI", "ARNDCQEGHL", "AKNDCEEGHI", "LRNDWQEGHI"]
+    places = ["x", "y", "x", "z"]
+    timetree = FlexibleTimeTreeModel.json_factory("timetree", "(((A,B),C),D);", [1.0, 2.5, 4.0], dict(zip(names, [0.0, 0.5, 0.0, 1.0])),
+                                                  internal_heights_id="ft.heights", taxa_id="taxa")
+    for t, place in zip(timetree["taxa"]["taxa"], places):
+        t["attributes"]["place"] = place
+    taxa, timetree["taxa"] = timetree["taxa"], "taxa"
+    spec = [
+        taxa,
+        {"id": "aln", "type": "Alignment", "datatype": {"id": "aa", "type": "AminoAcidDataType"}, "taxa": "taxa",
+         "sequences": [{"taxon": x, "sequence": q} for x, q in zip(names, seqs)]},
+        {"id": "tree", "type": "UnRootedTreeModel", "newick": "((A:0.1,B:0.2):0.05,C:0.3,D:0.1);", "taxa": "taxa",
+         "branch_lengths": P("blens", [0.1, 0.2, 0.3, 0.1, 0.05])},
+        {"id": "patterns", "type": "SitePattern", "alignment": "aln"},
+        {"id": "like.lg", "type": "TreeLikelihoodModel", "tree_model": "tree", "site_pattern": "patterns",
+         "site_model": {"id": "sm.lg", "type": "WeibullSiteModel", "categories": 3, "shape": P("lg.shape", [0.8])},
+         "substitution_model": {"id": "lg", "type": "torchtree.evolution.substitution_model.amino_acid.LG"}},
+        {"id": "like.wag", "type": "TreeLikelihoodModel", "tree_model": "tree", "site_pattern": "patterns",
+         "site_model": {"id": "sm.wag", "type": "InvariantSiteModel", "invariant": P("wag.pinv", [0.2])},
+         "substitution_model": {"id": "wag", "type": "torchtree.evolution.substitution_model.amino_acid.WAG"}},
+        timetree,
+        {"id": "clock", "type": "StrictClockModel", "tree_model": "timetree", "rate": P("trait.rate", [0.3])},
+        {"id": "like.trait", "type": "TreeLikelihoodModel", "tree_model": "timetree", "branch_model": "clock",
+         "site_pattern": {"id": "trait", "type": "AttributePattern", "taxa": "taxa", "attribute": "place",
+                          "data_type": {"id": "places", "type": "GeneralDataType", "codes": ["x", "y", "z"]}},
+         "site_model": {"id": "sm.trait", "type": "ConstantSiteModel"},
+         "substitution_model": {"id": "gjc", "type": "GeneralJC69", "state_count": 3}},
+        {"id": "coal.flex", "type": "ConstantCoalescentModel", "theta": P("flex.theta", [3.0]), "tree_model": "timetree"},
+        scenes.joint("joint", ["like.lg", "like.wag", "like.trait", "coal.flex"]),
+    ]
+    dom = {"blens": "positive", "lg.shape": "positive", "wag.pinv": "unit", "ft.heights": "ordered", "trait.rate": "positive", "flex.theta": "positive"}
     return spec, dom
